@@ -389,6 +389,31 @@ impl<'tcx> Cx<'tcx> {
                 };
                 J::obj(vec![("k", J::s("float")), ("bits", J::s(hex)), ("v", J::s(repr)), ("ty", self.ty(t))])
             }
+            ty::Adt(adt, args) if adt.is_struct() => {
+                // scalar-ABI newtype: descend into the single non-zero-sized field
+                let tcx = self.tcx;
+                let env = ty::TypingEnv::fully_monomorphized();
+                let v = adt.non_enum_variant();
+                let mut fields = vec![];
+                let mut nonzst = 0;
+                for f in v.fields.iter() {
+                    let fty = f.ty(tcx, args);
+                    let sz = tcx.layout_of(env.as_query_input(fty)).map(|l| l.size.bytes()).unwrap_or(0);
+                    if sz > 0 {
+                        nonzst += 1;
+                        fields.push((f.name.to_string(), self.scalar_bits(bits, nbytes, fty)));
+                    }
+                }
+                if nonzst == 1 {
+                    J::Obj(vec![
+                        ("k".to_string(), J::s("struct")),
+                        ("adt".to_string(), J::s(self.path(adt.did()))),
+                        ("fields".to_string(), J::Obj(fields)),
+                    ])
+                } else {
+                    J::obj(vec![("k", J::s("bits")), ("v", J::s(bits.to_string())), ("ty", self.ty(t))])
+                }
+            }
             _ => J::obj(vec![("k", J::s("bits")), ("v", J::s(bits.to_string())), ("ty", self.ty(t))]),
         }
     }
